@@ -4,6 +4,7 @@ import (
 	"encoding/json"
 	"io"
 
+	"github.com/dpb587/rdfkit-go/internal/ioutil"
 	"github.com/dpb587/rdfkit-go/rdf/blanknodes"
 )
 
@@ -54,7 +55,7 @@ func (s EncoderConfig) apply(d *EncoderConfig) {
 
 func (s EncoderConfig) newEncoder(w io.Writer) (*Encoder, error) {
 	ww := &Encoder{
-		w:                json.NewEncoder(w),
+		w:                json.NewEncoder(ioutil.NewJSONC1EscapingWriter(w)),
 		bnStringProvider: s.bnStringProvider,
 		buf:              map[string]map[string][]any{},
 	}
